@@ -157,11 +157,23 @@ func genCoreCases(r *prng.R, idx int) []BCase {
 		tps = append(tps, tp)
 		appHash, lrh = tp.root, tp.resultsHash
 	}
+	return chainCases(r, tps)
+}
+
+// chainCases: for every height of a chain of consecutive tuples (the last one
+// is the latest trusted height) the public-API twins of the verify cases and
+// the Core-level results / state-root cases.
+func chainCases(r *prng.R, tps []*tuple) []BCase {
+	n := len(tps)
 	var chain [][]byte
 	for _, tp := range tps {
 		chain = append(chain, tp.header)
 	}
-	var cs []BCase
+	var vals [][]byte
+	for _, tp := range tps {
+		vals = append(vals, tp.valsProto)
+	}
+	cs := apiTwins(r.Fork(), tps, chain, vals)
 	for i := 0; i < n; i++ {
 		tp := tps[i]
 		mk := func(kind, label string, rs *consensus.BlockResults, txs [][]byte, honest *BCase) {
@@ -177,13 +189,36 @@ func genCoreCases(r *prng.R, idx int) []BCase {
 			rs    *consensus.BlockResults
 		}{
 			{"genuine", tp.results},
-			{"result-code-changed", alterResults(tp.results, func(m *cmtapi.BlockResultsMeta) { j := r.Intn(nres); c := *m.TxsResults[j]; c.Code ^= 1; m.TxsResults[j] = &c })},
-			{"result-gasused+1000", alterResults(tp.results, func(m *cmtapi.BlockResultsMeta) { j := r.Intn(nres); c := *m.TxsResults[j]; c.GasUsed += 1000; m.TxsResults[j] = &c })},
-			{"result-data-changed", alterResults(tp.results, func(m *cmtapi.BlockResultsMeta) { j := r.Intn(nres); c := *m.TxsResults[j]; c.Data = append(append([]byte{}, c.Data...), 1); m.TxsResults[j] = &c })},
-			{"result-log-changed", alterResults(tp.results, func(m *cmtapi.BlockResultsMeta) { j := r.Intn(nres); c := *m.TxsResults[j]; c.Log += "!"; m.TxsResults[j] = &c })},
+			{"result-code-changed", alterResults(tp.results, func(m *cmtapi.BlockResultsMeta) {
+				j := r.Intn(nres)
+				c := *m.TxsResults[j]
+				c.Code ^= 1
+				m.TxsResults[j] = &c
+			})},
+			{"result-gasused+1000", alterResults(tp.results, func(m *cmtapi.BlockResultsMeta) {
+				j := r.Intn(nres)
+				c := *m.TxsResults[j]
+				c.GasUsed += 1000
+				m.TxsResults[j] = &c
+			})},
+			{"result-data-changed", alterResults(tp.results, func(m *cmtapi.BlockResultsMeta) {
+				j := r.Intn(nres)
+				c := *m.TxsResults[j]
+				c.Data = append(append([]byte{}, c.Data...), 1)
+				m.TxsResults[j] = &c
+			})},
+			{"result-log-changed", alterResults(tp.results, func(m *cmtapi.BlockResultsMeta) {
+				j := r.Intn(nres)
+				c := *m.TxsResults[j]
+				c.Log += "!"
+				m.TxsResults[j] = &c
+			})},
 			{"result-dropped", alterResults(tp.results, func(m *cmtapi.BlockResultsMeta) { m.TxsResults = m.TxsResults[:nres-1] })},
 			{"result-duplicated", alterResults(tp.results, func(m *cmtapi.BlockResultsMeta) { m.TxsResults = append(m.TxsResults, m.TxsResults[0]) })},
-			{"results-of-other-height", func() *consensus.BlockResults { o := tps[(i+1)%n].results; return &consensus.BlockResults{Height: tp.results.Height, Meta: o.Meta} }()},
+			{"results-of-other-height", func() *consensus.BlockResults {
+				o := tps[(i+1)%n].results
+				return &consensus.BlockResults{Height: tp.results.Height, Meta: o.Meta}
+			}()},
 			{"height+1", &consensus.BlockResults{Height: tp.results.Height + 1, Meta: tp.results.Meta}},
 			{"height-1", &consensus.BlockResults{Height: tp.results.Height - 1, Meta: tp.results.Meta}},
 			{"meta-garbage", &consensus.BlockResults{Height: tp.results.Height, Meta: r.Bytes(1 + r.Intn(12))}},
